@@ -50,11 +50,11 @@ CHECKS = {
    text="Exhaustive over stored and requested orders (fast path and lookup path both hit for every stored order); the manifold product-rule identity follows from the validated mul step plus the validated manifold read-back of the product.",
    note="Name universe of 3 (4) names plus one absent name; requested lists are duplicate-free as the property states."),
  "C18": dict(engine="num", cat="model_checking", design="5/C18",
-   technique="TLC-written kind-table programs: every operator of the generic Number container x the 3x3 kind pairs x float-left/right x owned/borrowed, every From impl and set_order / set_order_clone cell; TLC validates each against the contained-type rule and requires the two mixed-order arms to be refused (panic), never computed",
+   technique="TLC-written kind-table programs: every operator of the generic Number container x the 3x3 kind pairs x float-left/right x owned/borrowed, every From impl and set_order / set_order_clone cell; TLC validates each against the contained-type rule and requires the two mixed-order arms to be refused (panic), never computed; container operations compared bit for bit with the same operation on the contained types (TwinVerdict); the Python-facing operator table of Dual / Dual2 (PyNum.tla: which core operation and operand order each __op__/__rop__ denotes, TypeError on first/second-order mixes, pickle protocol) executed through cfg-guarded hooks and judged by TLC by translation to the core instruction",
    text="The full table is enumerated, not spot-checked; conversions are compared field by field (names, unit sensitivities, zero Hessian, only higher-order terms dropped).",
    note="A refusal is observed as a caught panic; an abort would be reported by C20."),
  "C19": dict(engine="num", cat="model_checking", design="5/C19",
-   technique="TLC-written programs over signed value pairs x layouts x kinds x float position for < <= > >= == !=, abs, signum, %, sum, zero/one identities, abs_sub; each result validated by TLC (comparison on values, abs flips everything, a % b = a - b*trunc(a/b) in value and derivatives, sum = left fold from zero)",
+   technique="TLC-written programs over signed value pairs x layouts x kinds x float position for < <= > >= == !=, abs, signum, %, sum, zero/one identities, abs_sub; each result validated by TLC (comparison on values, abs flips everything, a % b = a - b*trunc(a/b) in value and derivatives, sum = left fold from zero); quotients beyond the 32-bit integers included",
    text="All four sign combinations of dividend and divisor, equal values, number/float pairs in both positions, Dual / Dual2 / Number.",
    note="Remainders whose quotient is within 1e-6 of (but not exactly) an integer are skipped."),
  "C11": dict(engine="curve", cat="model_checking", design="5/C11",
@@ -70,21 +70,21 @@ CHECKS = {
    text="Exhaustive elimination paths (every pivot position, swap and no-swap) on the model; the real solvers are held to A x = b including every derivative carried by A and b, with pivoting forced by permutation-scrambled sparse systems and zero-valued entries that still carry derivatives.",
    note="Residual tolerance 1e-9 of the sum of absolute terms; sizes up to 8x8 and tall systems up to ~13x6; well-conditioned systems only."),
  "C14": dict(engine="spline", cat="model_checking", design="5/C14",
-   technique="Declarative piecewise-polynomial basis (Cox-de Boor on polynomials) model-checked by TLC against the B-spline axioms on every knot multiplicity pattern and quarter point; bsplev_single_f64 / bspldnev_single_f64 evaluated on the same TLC-written knot vectors (every basis index, derivative order 0..k+1, sample point incl. knots and both end points) and on random real knots, every value validated by TLC",
+   technique="Declarative piecewise-polynomial basis (Cox-de Boor on polynomials) model-checked by TLC against the B-spline axioms on every knot multiplicity pattern and quarter point; bsplev_single_f64 / bspldnev_single_f64 evaluated on the same TLC-written knot vectors (every basis index, derivative order 0..k+1, sample point incl. knots and both end points) and on random real knots, every value validated by TLC; the Dual / Dual2 entry points of the basis functions validated by the chain rule on the piecewise polynomial (abscissae with their own curvature)",
    text="Exhaustive over orders 1..4 (6), interior multiplicities, basis indices, derivative orders and sample points including the right end point, where the derivative must be the left derivative.",
    note="Oracle evaluated in doubles in the monomial basis with term-sum scaling; integer-valued and random real knots."),
  "C15": dict(engine="spline", cat="model_checking", design="5/C15",
-   technique="Recorded csolve + evaluations of PPSpline<f64/Dual/Dual2> validated by TLC: collocation rows (interpolation and end derivative conditions) recomputed from the logged coefficients with DualAlgebra, every evaluation = sum c_i D^m B_i(x) for the 3x3 spline-type x abscissa-type table (two cells must be refused), polynomial reproduction, unit-data sensitivities, mismatched counts rejected",
+   technique="Recorded csolve + evaluations of PPSpline<f64/Dual/Dual2> validated by TLC: collocation rows (interpolation and end derivative conditions) recomputed from the logged coefficients with DualAlgebra, every evaluation = sum c_i D^m B_i(x) for the 3x3 spline-type x abscissa-type table (two cells must be refused), polynomial reproduction, unit-data sensitivities, mismatched counts rejected; the Python-facing spline classes (method family x abscissa-kind table with its TypeError cells, vector methods, read-back) validated by the same rules (PyOK)",
    text="Seeded scenarios over orders 2..6 and four site layouts (incl. natural / clamped cubic with asymmetric end conditions and least squares); the basis oracle is C14's model-checked definition.",
    note="Model part is C14's basis model (the solved-spline layer is validated, not exhaustively enumerated); simple interior knots."),
  "C16": dict(engine="persist", cat="model_checking", design="5/C16",
-   technique="Save/load protocol as a TLC-checked state machine (Save, Mutate, Load, Resave over an abstract universe incl. the rebuild-on-load types; Load(Save(o)) = Canon(o), Canon idempotent, Save-Load-Save = Save); recorded round trips of every serialisable type x {JSON, tagged from_json, bincode} with random finite bit-pattern doubles validated by TLC: projection after = Canon(projection before) bit for bit, the library's == true, FX markets compared at order 1 with rates agreeing in any state",
+   technique="Save/load protocol as a TLC-checked state machine (Save, Mutate, Load, Resave over an abstract universe incl. the rebuild-on-load types; Load(Save(o)) = Canon(o), Canon idempotent, Save-Load-Save = Save); recorded round trips of every serialisable type x {JSON, tagged from_json, bincode} with random finite bit-pattern doubles validated by TLC: projection after = Canon(projection before) bit for bit, the library's == true, FX markets compared at order 1 with rates agreeing in any state; the pickle protocol (__new__(*__getnewargs__()) then __setstate__(__getstate__())) run through the pymethods themselves for every class that has one",
    text="The protocol (what is stored, what is rebuilt, at which order, which equality) is model-checked; the float-text path is sampled with random 64-bit patterns (subnormals, -0.0, 17-digit mantissas), which is what exposed the non-round-tripping JSON float parser (fixed).",
    note="Encode/decode fidelity of third-party parsers is sampled, not enumerated; NaN / infinities are outside the property."),
  "C20": dict(engine="persist", cat="fault_enumeration", design="5/C20",
-   technique="Fault enumeration judged by TLC: every single mutation of one valid tagged JSON document per type (outcome must be Err, or Ok with Persist.tla's shape invariants and a usable object - never a panic), constructor argument grids against the specified outcome class, every NamedCal token string, and the calendar engine's date-arithmetic traces (i8 extremes, month offsets, roll days 1-31) validated for totality and value against Calendar.tla; MC_Persist model-checks that a validating Load maps every mutated document to Err or a well-shaped object",
+   technique="Fault enumeration judged by TLC: every single mutation (delete, duplicate, retype, grow, array-header re-factorisation) of one valid tagged JSON document per type plus seeded double mutations (outcome must be Err, or Ok with Persist.tla's shape invariants and a usable object - never a panic), constructor argument grids against the specified outcome class, every NamedCal token string, and the calendar engine's date-arithmetic traces (i8 extremes, month offsets, roll days 1-31) validated for totality and value against Calendar.tla; MC_Persist model-checks that a validating Load maps every mutated document to Err or a well-shaped object",
    text="The faults are the enumerated malformed inputs; TLC decides each recorded outcome. Genuine defects found and repaired in /repo: add_days(-128), load-time panics, pivot-search panic, shape-violating documents accepted by derived Deserialize (see known_findings.txt).",
-   note="A panic is observed through catch_unwind with an initialised interpreter; a hang is reported by a watchdog; double mutations are not enumerated."),
+   note="A panic is observed through catch_unwind with an initialised interpreter; a hang is reported by a watchdog; double mutations are seeded, not enumerated."),
 }
 
 PENDING = {
